@@ -52,6 +52,14 @@ func genIsol(rng *rand.Rand, tier string, emit func(string)) {
 			emit(fmt.Sprintf("clear %s %s", tp, hexs([]byte(big))))
 			emit(fmt.Sprintf("pop %s %s %s", tp, hexs([]byte(big)), hexs([]byte("m00001"))))
 			emit(fmt.Sprintf("clear %s %s", tp, hexs([]byte("t:t:a"))))
+			// exactly at the boundary between the iterate path and the range-delete path of a clear, and one below:
+			// clear, re-create with one element, the collection must hold that element only
+			for _, n := range []int{5000, 4999} {
+				bk := fmt.Sprintf("t:b%d", n)
+				emit(fmt.Sprintf("popn %s %s %d", tp, hexs([]byte(bk)), n))
+				emit(fmt.Sprintf("clear %s %s", tp, hexs([]byte(bk))))
+				emit(fmt.Sprintf("pop %s %s %s", tp, hexs([]byte(bk)), hexs([]byte("zz-after-clear"))))
+			}
 		}
 	}
 	for s := 0; s < sessions; s++ {
@@ -139,6 +147,10 @@ func newIsol(c *Ctx) func(string) string {
 		case "pop":
 			raw := unhex(f[2])
 			var err error
+			beforeC := "?"
+			if f[1] != "kv" {
+				beforeC = n.content(tOf[f[1]], append([]byte(dataNS+":"), raw...))
+			}
 			switch f[1] {
 			case "kv":
 				err = n.kv.KVSet(ts, raw, []byte("v"))
@@ -162,6 +174,26 @@ func newIsol(c *Ctx) func(string) string {
 			}
 			if err != nil {
 				return "err:" + errClass(err.Error())
+			}
+			if beforeC == "" {
+				// written into an empty / absent / just cleared collection: it must now hold what was written and nothing else
+				// (a clear that left element keys behind shows here, when the collection is created again)
+				want := len(f[3:])
+				if f[1] != "list" {
+					seen := map[string]bool{}
+					for _, hx := range f[3:] {
+						seen[hx] = true
+					}
+					want = len(seen)
+				}
+				afterC := n.content(tOf[f[1]], append([]byte(dataNS+":"), raw...))
+				got := 0
+				if afterC != "" {
+					got = strings.Count(afterC, ",") + 1
+				}
+				if got != want {
+					c.Violation("recreated-holds-other-data:"+f[1], fmt.Sprintf("%s: %d element(s) written into an empty %s, it now holds %d: %.300s", line, want, f[1], got, afterC))
+				}
 			}
 			known[f[1]+" "+f[2]] = true
 			return "ok"
